@@ -1,6 +1,7 @@
 import SCModel.Generated.Tables
 import SCModel.Model.Slicing
 import SCModel.Model.World
+import SCModel.Model.Forms
 /-!
 # SCModel.Props.Tie — the tables regenerated from the source equal the model's tables
 
@@ -66,5 +67,33 @@ unchanged, and the reset clears both caches – the statement order `Obj.layer` 
 theorem tie_layerPrefix :
     Generated.layerPrefix = [.returnSelfIfAllUndefined, .clearCache] ∧
     Generated.clearCacheResetsDist = true ∧ Generated.clearCacheResetsIntegralAndMean = true := by decide
+
+/-- C16/C03: the two conversions between the internal forms – `_make_deltas_from_vals` on every canonical
+value column and `_make_vals_from_deltas` on every change column with ≤ 3 rows over {NaN, 0, 1, 3} – evaluated
+from the source, equal the model's `deltasFromVals` / `valsFromDeltas` (`Model/Forms.lean`) -/
+theorem tie_formConversions :
+    (∀ c ∈ Generated.deltasFromValsCases, deltasFromVals c.1 c.2.1 = c.2.2) ∧
+    (∀ c ∈ Generated.valsFromDeltasCases, valsFromDeltas c.1 c.2.1 = c.2.2) := by
+  constructor <;> decide +kernel
+
+/-- C12: `_remove_redundant_step_points` (value path) on every value column with ≤ 3 rows over {NaN, 0, 1} and every
+initial value keeps exactly the rows the model's `removeRedundant` keeps -/
+theorem tie_removeViaValues :
+    ∀ c ∈ Generated.removeViaValuesCases,
+      (removeRedundant c.1 ((List.range c.2.1.length).zip c.2.1)).map Prod.fst = c.2.2 := by
+  decide +kernel
+
+/-- C12/C16: … and the step-change path keeps exactly the rows `removeRedundantDeltas` (`Model/Forms.lean`) keeps -/
+theorem tie_removeViaDeltas :
+    ∀ c ∈ Generated.removeViaDeltasCases,
+      (removeRedundantDeltas ((List.range c.1.length).zip c.1)).map Prod.fst = c.2 := by
+  decide +kernel
+
+/-- C06: `_maskify` turns a masker value into "masked" (NaN) or "kept" (0) exactly as the model's `maskOp` /
+`whereOp` decide, for step values and for the initial value alike -/
+theorem tie_maskify : ∀ t,
+    Generated.maskify false t = (maskOp (some 0) (conc t), maskOp (some 0) (conc t)) ∧
+    Generated.maskify true t = (whereOp (some 0) (conc t), whereOp (some 0) (conc t)) := by
+  intro t; cases t <;> decide +kernel
 
 end SC.Props.Tie
